@@ -92,11 +92,11 @@ def model_check(name, module, cfg, wd, workers=8, timeout=1800):
 VEC = re.compile(r'^<<"VEC", (".*")>>$')
 
 
-def generate(name, module, cfg, wd, src, workers=8, timeout=1800, extra=()):
+def generate(name, module, cfg, wd, src, workers=8, timeout=1800, extra=(), env=None):
     """A: TLC prints behaviours; returns the list of input events (dicts)."""
     t = time.time()
     rc, out, gen, dist = tlc(os.path.join(SPEC, "gen", module), cfg, os.path.join(wd, "md_" + name), workers, timeout,
-                             extra=extra)
+                             extra=extra, env=env)
     if rc != 0 or ("Model checking completed" not in out and "Finished in" not in out):
         open(os.path.join(wd, f"gen_{name}.out"), "w").write(out)
         raise ToolError(f"generator failed: {name} (see {wd}/gen_{name}.out)")
@@ -234,7 +234,17 @@ def check(prop, tier, seed):
             continue
         cfg = g["cfg_quick"] if quick else g.get("cfg_thorough", g["cfg_quick"])
         extra = ("-seed", str(seed)) if g.get("seeded") else ()
-        vecs, st = generate(g["name"], g["module"], cfg, wd, "gen", workers=g.get("workers", 8), extra=extra)
+        genv = None
+        if g.get("models"):
+            # abstract models drawn by the seeded driver; the specification renders them and gives their meaning
+            grp, nq, nt = g["models"]
+            mp = os.path.join(wd, f"models_{g['name']}.ndjson")
+            harness_gen(grp, seed, nq if quick else nt, mp)
+            genv = {"MODELS": mp}
+        vecs, st = generate(g["name"], g["module"], cfg, wd, "gen", workers=g.get("workers", 8), extra=extra, env=genv)
+        if genv:
+            for v in vecs:
+                v["src"] = "drive+gen"
         post = g.get("post")
         if post:
             vecs = post(vecs, wd, quick, seed)
